@@ -192,6 +192,7 @@ func (m *MapPollard) Modify(adds []Leaf, delHashes []Hash, proof Proof) error {
 	if err != nil {
 		return err
 	}
+	verifPoint("modify.afterRemove")
 
 	err = m.add(adds)
 	if err != nil {
@@ -220,6 +221,7 @@ func (m *MapPollard) add(adds []Leaf) error {
 		if err != nil {
 			return err
 		}
+		verifPoint("modify.afterAddSingle")
 
 		m.NumLeaves++
 	}
@@ -917,11 +919,13 @@ func (m *MapPollard) Undo(numAdds uint64, proof Proof, hashes, origPrevRoots []H
 	if err != nil {
 		return fmt.Errorf("Undo errored while undoing added leaves. %v", err)
 	}
+	verifPoint("undo.afterUndoAdd")
 
 	err = m.undoDeletion(proof, hashes)
 	if err != nil {
 		return fmt.Errorf("Undo errored while undoing deleted leaves. %v", err)
 	}
+	verifPoint("undo.afterUndoDel")
 
 	_, rootPos := m.getRoots()
 	for i := range rootPos {
@@ -1165,6 +1169,7 @@ func (m *MapPollard) ingest(delHashes []Hash, proof Proof) error {
 			m.Nodes.Put(pos, Leaf{Hash: proof.Proof[i], Remember: m.Full})
 		}
 	}
+	verifPoint("ingest.afterProof")
 
 	// Calculate the intermediate positions and their hashes.
 	intermediate, _, err := calculateHashes(m.NumLeaves, delHashes, proof)
@@ -1218,6 +1223,7 @@ func (m *MapPollard) Prune(hashes []Hash) error {
 		}
 
 		m.CachedLeaves.Delete(hash)
+		verifPoint("prune.afterUncache")
 
 		leaf, found := m.Nodes.Get(pos)
 		if !found {
@@ -1478,6 +1484,7 @@ func (m *MapPollard) Read(r io.Reader) (int, error) {
 	}
 	m.TotalRows = buf[0]
 	totalBytes += bytes
+	verifPoint("read.afterTotalRows")
 
 	// Read the number of leaves.
 	bytes, err = r.Read(buf[:])
@@ -1486,6 +1493,7 @@ func (m *MapPollard) Read(r io.Reader) (int, error) {
 	}
 	totalBytes += bytes
 	m.NumLeaves = binary.LittleEndian.Uint64(buf[:])
+	verifPoint("read.afterHeader")
 
 	// Read the count for the cache leaf elements in the map.
 	bytes, err = r.Read(buf[:])
@@ -1512,6 +1520,7 @@ func (m *MapPollard) Read(r io.Reader) (int, error) {
 		totalBytes += bytes
 		m.CachedLeaves.Put(hash, binary.LittleEndian.Uint64(buf[:]))
 	}
+	verifPoint("read.afterCached")
 
 	// Read the count for the node elements in the map.
 	bytes, err = r.Read(buf[:])
